@@ -8,4 +8,4 @@ for c in "$@"; do
   VERIF_SEED=${VERIF_SEED:-1} ./check $c --tier ${TIER:-quick} 2>&1 | grep -v "^classes" | tail -6
 done
 git -C /repo checkout -- .
-python3 -m vlib.build ensure fast >/dev/null
+python3 -m vlib.build ensure fast >/dev/null; python3 -m vlib.build ensure san >/dev/null; python3 -m vlib.build ensure tsan >/dev/null
